@@ -1297,6 +1297,57 @@ def hoist_walrus(tree):
     return n
 
 
+def uncycle_loops(tree):
+    """`for t in cycle((a, b)): if C: break; B` (integer literals, no
+    `continue` in B) is `t = a; while not C: B; t ^= a ^ b`"""
+    n = 0
+    for owner in list(ast.walk(tree)):
+        for fld in ("body", "orelse", "finalbody"):
+            lst = getattr(owner, fld, None)
+            if not isinstance(lst, list) or not lst or not isinstance(
+                    lst[0], ast.stmt):
+                continue
+            for i, st in enumerate(list(lst)):
+                if not (isinstance(st, ast.For) and not st.orelse
+                        and isinstance(st.target, ast.Name)
+                        and isinstance(st.iter, ast.Call)
+                        and ast.unparse(st.iter.func).split(".")[-1]
+                        == "cycle" and len(st.iter.args) == 1
+                        and isinstance(st.iter.args[0], (ast.Tuple, ast.List))
+                        and len(st.iter.args[0].elts) == 2
+                        and all(isinstance(e, ast.Constant) and type(
+                            e.value) is int for e in st.iter.args[0].elts)
+                        and st.body and isinstance(st.body[0], ast.If)
+                        and not st.body[0].orelse
+                        and len(st.body[0].body) == 1
+                        and isinstance(st.body[0].body[0], ast.Break)):
+                    continue
+                rest = st.body[1:]
+                if any(isinstance(x, ast.Continue) for b in rest
+                       for x in ast.walk(b)):
+                    continue
+                a, b = (e.value for e in st.iter.args[0].elts)
+                init = ast.Assign(targets=[ast.Name(st.target.id,
+                                                    ast.Store())],
+                                  value=ast.Constant(a))
+                flip = ast.AugAssign(target=ast.Name(st.target.id,
+                                                     ast.Store()),
+                                     op=ast.BitXor(),
+                                     value=ast.Constant(a ^ b))
+                loop = ast.While(test=negate(st.body[0].test),
+                                 body=rest + [flip], orelse=[])
+                for x in (init, loop):
+                    ast.copy_location(x, st)
+                ast.copy_location(flip, st.body[-1])
+                loop.end_lineno = getattr(st, "end_lineno", None)
+                for x in (init, flip, loop):
+                    ast.fix_missing_locations(x)
+                j = lst.index(st)
+                lst[j:j + 1] = [init, loop]
+                n += 1
+    return n
+
+
 def _plain_value(e):
     """names, attribute chains, literals and operators over them (nothing
     is called)"""
@@ -1470,7 +1521,8 @@ def normalize(tree, modname):
     info["match_lowered"] = lower_match(tree) + hoist_walrus(tree) + \
         split_divmod(tree) + inline_with_walrus(tree)
     info["reshaped"] = canon_shapes(tree)
-    info["rotated"] = rotate_loops(tree) + unwrap_genexp_loops(tree)
+    info["rotated"] = uncycle_loops(tree) + rotate_loops(tree) + \
+        unwrap_genexp_loops(tree)
     if os.environ.get("SA_CANON_FLOW", "1") == "1":
         info["flow"] = canon_flow(tree)
         canon_shapes(tree)
